@@ -235,6 +235,8 @@ package mongodb
 
 // GetNextCollectionNum: an atomic find-and-increment of the counter document, created when missing, that
 // returns the NEW value — so that every call returns a number no earlier call returned.
+// the number GetNextCollectionNum handed out last (a log of the call)
+//@ ghost log field G.lastNum mathint
 //@ func (*MongoCollections).GetNextCollectionNum
 //@   trusted MongoDB FindOneAndUpdate semantics ($inc, upsert, ReturnDocument)
 //@   mode math
@@ -244,7 +246,8 @@ package mongodb
 //@   checks[creates-the-counter-when-missing] G.qUpsert
 //@   checks[returns-the-incremented-value] G.qReturnAfter
 //@   checks[database-error-is-reported] dbErr() ==> result1 != nil
-//@   modifies alloc, G:qKind, G:qColl, G:qFilter, G:qCount, G:qErr, G:qUpsert, G:qReturnAfter, map[string]interface{}
+//@   ensures[number-handed-out-is-recorded] G.lastNum == result0
+//@   modifies alloc, G:qKind, G:qColl, G:qFilter, G:qCount, G:qErr, G:qUpsert, G:qReturnAfter, G:lastNum, map[string]interface{}
 
 // purgeAllDocumentsOfCollectionNum (the body of a collection reset): the four kinds of documents of THAT collection
 // number are deleted — operations, snapshots, datatypes, clients — and a failure of any step is reported.
@@ -256,3 +259,26 @@ package mongodb
 //@   checks[all-four-kinds-of-that-collection] result == nil ==> lastCmd(old(its.operations), "DeleteMany", "colNum", collectionNum) && lastCmd(old(its.snapshots), "DeleteMany", "colNum", collectionNum) && lastCmd(old(its.datatypes), "DeleteMany", "colNum", collectionNum) && lastCmd(old(its.clients), "DeleteMany", "colNum", collectionNum)
 //@   checks[database-error-is-reported] G.qErr != nil ==> result != nil
 //@   modifies alloc, G:qKind, G:qColl, G:qFilter, G:qCount, G:qErr, G:cmdKind, G:cmdFilter
+
+// InsertCollection (the body run inside the MongoDB transaction): the new collection document carries the given name
+// and the number just handed out by the counter, and it is that document which is inserted into the collections
+// collection; a failure of either step is reported.
+//@ func (*MongoCollections).InsertCollection$1
+//@   mode math
+//@   props C17
+//@   requires its != nil && ctx != nil && its.collections != nil && its.counters != nil
+//@   ensures[the-new-collection-carries-its-name-and-the-fresh-number] result == nil ==> collection != nil && fresh(collection) && collection.Name == name && collection.Num == G.lastNum
+//@   ensures[it-is-inserted-into-the-collections-collection] result == nil ==> G.qKind == "InsertOne" && G.qColl == its.collections && G.qDoc == collection
+//@   ensures[database-error-is-reported] G.qErr != nil ==> result != nil
+//@   modifies *
+
+// PurgeAllDocumentsOfCollection (the body run inside the MongoDB transaction): the documents purged are those of the
+// collection that HAS the given name (its number is read from the collections collection); an unknown name purges
+// nothing; a failure of the lookup or of the purge is reported.
+//@ func (*MongoCollections).PurgeAllDocumentsOfCollection$1
+//@   mode math
+//@   props C17
+//@   requires its != nil && ctx != nil && its.collections != nil && its.operations != its.snapshots && its.operations != its.datatypes && its.snapshots != its.datatypes && its.clients != its.operations && its.clients != its.snapshots && its.clients != its.datatypes && its.collections != its.operations && its.collections != its.snapshots && its.collections != its.datatypes && its.collections != its.clients
+//@   ensures-local[purges-the-collection-that-has-the-name] result == nil && collectionDoc != nil ==> lastCmd(old(its.operations), "DeleteMany", "colNum", collectionDoc.Num) && lastCmd(old(its.datatypes), "DeleteMany", "colNum", collectionDoc.Num) && lastCmd(old(its.snapshots), "DeleteMany", "colNum", collectionDoc.Num) && lastCmd(old(its.clients), "DeleteMany", "colNum", collectionDoc.Num)
+//@   ensures-local[an-unknown-name-purges-nothing] collectionDoc == nil ==> G.cmdKind == old(G.cmdKind)
+//@   modifies *
